@@ -69,6 +69,9 @@ def execute(dev):
     # bitmap_resolution to sbix builds as well (sbix itself could hold more): such a rejection
     # is an error, not a wrong font, and the statement does not forbid it
     may_raise = may_raise or (fmt == "sbix" and (exp_top > 126.5 or exp_top < -129.5 or h > 254))
+    # the outlined .notdef with an advance beyond int16 gives hhea.minRightSideBearing a value it cannot hold: a metric
+    # combination the font format cannot represent, rejected by fontTools when the font is saved
+    may_raise = may_raise or (a["order"] == "coloured_notdef" and max(advs_units) > 32767)
     try:
         names = None
         if a["order"] == "coloured_notdef":
